@@ -3,8 +3,10 @@
      is decoded with the extracted model ([Model.decode]) and compared with what the real
      decoders did.  The property predicates evaluated on the implementation's output:
        - it terminated normally (no abort / timeout / panic),
-       - its largest single allocation request is within C08_alloc's bound for the input length,
-       - a truncated well-formed frame (kinds T, U) is rejected.
+       - its largest single allocation request is within C08_alloc's bound for the input length, the
+         total of all requests within twice that (the bound is proved of the model's ghost counter and
+         APPLIED here to the allocator's measurements).
+     Everything else is correspondence (`diff`), incl. an accepted truncated frame (kinds T, U).
    gen mode ("driver gen <seed> <count>"): prints well-formed frames produced by the extracted
      ENCODER (the specification side) from randomly generated response values. *)
 
@@ -148,8 +150,7 @@ let show_diff impl_s model =
 
 (* Verdict.  Order: (1) the property predicate on the implementation's own output - it terminated
    normally and what it allocated (largest single request AND total, measured) is in proportion to
-   the input; only this gives `viol`, tagged with a known class when the extracted KnownClass predicate
-   holds and explains the measurement; (2) correspondence with the model: anything else is `diff`;
+   the input; only this gives `viol` (no class tags: no finding is open); (2) correspondence with the model: anything else is `diff`;
    environment trouble is `ok notrun` (counted and capped by checks/c08.py). *)
 let verdict case impl =
   match case with
@@ -162,11 +163,18 @@ let verdict case impl =
     let decompress = (fun _ -> match dc with
         | Some "!" | None -> None
         | Some h -> Some (bytes_of_hexstr h)) in
-    let num p = match find_field p impl with Some v -> int_of_string v | None -> 0 in
-    let maxreq = num "m=" and total = num "t=" in
+    let num p = match find_field p impl with Some v -> int_of_string_opt v | None -> None in
     let small = match find_field "s=" impl with Some v -> v | None -> "-" in
-    let status = List.filter (fun f -> not (starts "m=" f || starts "t=" f || starts "s=" f || starts "dc=" f)) impl in
-    (match status with
+    let sch = match find_field "sch=" impl with
+      | Some v -> List.filter_map int_of_string_opt (String.split_on_char '.' v) | None -> [] in
+    let status = List.filter (fun f -> not (starts "m=" f || starts "t=" f || starts "s=" f || starts "dc=" f || starts "sch=" f)) impl in
+    (match num "m=", num "t=" with
+     | None, _ | _, None -> "error result line without m= / t= (the measurements the property is judged on)"
+     | Some maxreq, Some total ->
+    if find_field "s=" impl = None then "error result line without s=" else
+    if kind.[0] = 'Q' && sch = [] && (match status with ("notrun" | "abort" | "panic" | "timeout") :: _ -> false | _ -> true)
+    then "error Q result line without sch=" else
+    match status with
      | "notrun" :: r -> "ok notrun " ^ String.concat "_" r
      | ("abort" | "panic") :: _ -> "viol crash=" ^ String.concat "_" status ^ " len=" ^ string_of_int len
      | "timeout" :: _ ->
@@ -232,17 +240,25 @@ let verdict case impl =
        let model = if kind.[0] <> 'Q' then model else begin
            (* the reader after the first call: behind the frame; behind the 9 header bytes when the header
               was refused; at the end when the stream ran out *)
-           let rec drop k l = if k = 0 then l else (match l with [] -> [] | _ :: r -> drop (k - 1) r) in
-           let rest = (match fst (read_frame stream) with
-               | Ok ((_, _), rest) -> rest
-               | Err (EHeaderIo | EConnectionClosed) -> []
-               | Err _ -> drop 9 stream) in
+           (* the model of the chunked reader (Model/FrameChunk.v, C08_chunking) on the chunks the tie's
+              reader delivered: the stream cut into the scheduled sizes; every read offers exactly what
+              is still missing (offers = []: true of read_exact and of read_buf for bodies <= 1 MiB) *)
+           let sizes = List.map n_of_i sch in
+           let cs = cut_chunks (nat_of_int (len + 1)) sizes sizes stream in
+           let first_chunked = read_frame_chunked [] cs in
+           let agree = (match first_chunked, fst (read_frame stream) with
+               | Ok ((h, body), cs'), Ok ((h', body'), rest) -> h = h' && body = body' && List.concat cs' = rest
+               | Err e, Err e' -> e = e'
+               | _ -> false) in
+           let cs1 = reader_after [] cs in
+           let rest = List.concat cs1 in
            (* the second call reserves its own body buffer (min(length, 1 MiB)): part of the accounting *)
            second_alloc := int_of_n (snd (read_frame rest)).c_alloc;
-           let second = (match fst (read_frame rest) with
+           let second = (match read_frame_chunked [] cs1 with
                | Ok ((h, body), _) -> Printf.sprintf "ok:%s:%s:%s:%s" (dec_of_n h.h_flags) (dec_of_z h.h_stream) (dec_of_n h.h_opcode) (hexs body)
                | Err e -> "err:" ^ err_name e) in
-           model ^ " q2=" ^ second
+           (* C08_chunking instantiated: the two models of the reader must agree on the first frame *)
+           (if agree then model else "chunk-model-disagrees-with-read_frame " ^ model) ^ " q2=" ^ second
          end in
        let impl_s = String.concat " " status in
        let malloc = int_of_n c.c_alloc + !second_alloc in
@@ -263,7 +279,7 @@ let verdict case impl =
          if maxreq > malloc + 64 * (len + dlen) + 65536 + codec_buffer then
            Printf.sprintf "diff alloc-accounting maxreq=%d model_alloc=%d len=%d" maxreq malloc len
          else if small = "overflow" || small = "differ" then
-           (* the model bounds the recursion by 257 levels: a quarter of the 2 MiB stack must do *)
+           (* the model bounds the recursion by 257 levels: a quarter (512 KiB) of the 2 MiB stack must do *)
            "diff stack-accounting small-stack-run=" ^ small ^ " model_depth=" ^ dec_of_n c.c_depth
          else "ok"
        end)
